@@ -134,11 +134,12 @@ def register(claim):
     claim("C11",
           "Lean 4 theorems about remap_indices over the layout-directed database model: wrappers receive exactly first..first+n-1, the other kinds "
           "follow consecutively, the returned next index is first + number of entries (c11_wrappers_first, c11_ranges); every index-typed member "
-          "(read from the headers) is passed through remap.map_from() by its class (c11_field_coverage, decided by the kernel on regenerated facts). "
+          "(read from the headers) is passed through remap.map_from() by its class (c11_field_coverage, c11_covers, decided by the kernel on regenerated facts), "
+          "and therefore a referentially closed database stays closed under remap_indices(first) for every first (c11_closed_preserved; hypotheses: kinds do not share indices, 0 is not an index). "
           "The model's remap_indices/closure/link verdicts are tied to the real library on closed and dangling databases; databases produced by "
           "interrogate from generated headers x back-ends are checked against the property's oracle incl. a g++ redeclaration check of C signatures.",
-          "Partial: closure preservation is tied by correspondence, not yet a Lean theorem; agreement of C signature text is a compile check (exploration).",
-          "Lean 4 proof (consecutive renumbering) + regenerated index/remap member facts + differential correspondence", "DESIGN.md §5 C11")
+          "Partial: files in which two kinds share an index are covered by correspondence only; agreement of C signature text is a compile check (exploration).",
+          "Lean 4 proof (consecutive renumbering, closure preservation) + regenerated index/remap member facts + differential correspondence", "DESIGN.md §5 C11")
     claim("C13",
           "Lean 4 theorems: global-ness of a merged type is the union, the fully defined definition wins in either order (merge_with), and for ANY "
           "number of libraries of which one defines a type and the others only refer to it, merging their records in any two orders gives the same "
